@@ -117,6 +117,13 @@ func NewWatcher() (*Watcher, error) {
 					simrt.Die()
 				}
 			}
+			// (a watcher that is already closed delivers nothing more: decided here, not by Go's random choice
+			// among ready cases)
+			select {
+			case <-wt.done:
+				return
+			default:
+			}
 			simrt.Yield()
 			select {
 			case wt.Events <- ev:
